@@ -12,6 +12,10 @@
     - [value_bytes] / [value_from_bytes] : legacy JSON byte format ([value_from_bytes_legacy]:
       ValueFromBytes before 4a8d65e, witness theorems of section 12 only); [new] = registers.New;
       [own_value r] = what r.Value() hands back to New;
+    - [value] = what New is handed: [VNil], [VUint bits n] (any Go integer), [VBytes b] (byte
+      slice / byte array), [VReg r] (a register value, i.e. one of the 26 typed integers / the typed
+      array), [VOther]; [value_wf v] : bytes are bytes, a register value is [valid];
+      [is_key id] : id is TXT.PUBLIC.KEY; [incompatible id v] : v is of another kind than register id;
     - [json_roundtrip] / [yaml_roundtrip] : marshal then unmarshal a collection
       (results [ROk] / [RErr] / [RPanic]);
     - [reg_le a b] : [reg_leb a b = true], the order of Registers.Sort (address, then ID);
@@ -605,6 +609,63 @@ Theorem C16_other_entry_refused : forall id, yaml_entry id YOther = RErr.
 Proof. exact other_entry_refused. Qed.
 Print Assumptions C16_other_entry_refused.
 
+(** * 21. registers.New as a public constructor: every identifier, every kind of value
+
+    What New returns is a register OF THE IDENTIFIER ASKED FOR (never the value's own identifier),
+    found under that identifier in any collection it heads; a register value of another register
+    type (a typed integer / the typed 32-byte array: a value copied from one register into
+    another) is accepted iff both are integer registers or both the key, and then keeps its raw
+    value whenever it fits - always when the two registers have the same Go width; values of
+    another kind are errors. *)
+
+Theorem C16_new_result_valid : forall id v r,
+  value_wf v -> new id v = ROk r -> valid r /\ fst r = id.
+Proof. exact new_valid. Qed.
+Print Assumptions C16_new_result_valid.
+
+Theorem C16_new_result_found : forall id v r l,
+  value_wf v -> new id v = ROk r -> find id (r :: l) = Some r.
+Proof. exact new_find. Qed.
+Print Assumptions C16_new_result_found.
+
+Theorem C16_new_register_characterised : forall id i src,
+  lookup id registry = Some i -> valid src ->
+  new id (VReg src) =
+    if Bool.eqb (is_key id) (is_key (fst src)) then ROk (id, snd src mod 2 ^ r_bits i) else RErr.
+Proof. exact new_register_characterised. Qed.
+Print Assumptions C16_new_register_characterised.
+
+Theorem C16_new_register_keeps_value : forall id i src,
+  lookup id registry = Some i -> valid src -> is_key id = is_key (fst src) ->
+  snd src < 2 ^ r_bits i -> new id (VReg src) = ROk (id, snd src).
+Proof. exact new_register_keeps. Qed.
+Print Assumptions C16_new_register_keeps_value.
+
+(** "a value of the register's own width": the value of any register of the same Go width *)
+Theorem C16_new_register_same_width : forall id i src j,
+  lookup id registry = Some i -> lookup (fst src) registry = Some j -> r_bits i = r_bits j ->
+  snd src < 2 ^ r_bits j -> new id (VReg src) = ROk (id, snd src).
+Proof. exact new_register_same_width. Qed.
+Print Assumptions C16_new_register_same_width.
+
+Theorem C16_new_uint_keeps_value : forall id i bits n,
+  lookup id registry = Some i -> id <> key_id -> n < 2 ^ r_bits i ->
+  new id (VUint bits n) = ROk (id, n).
+Proof. exact new_uint_keeps. Qed.
+Print Assumptions C16_new_uint_keeps_value.
+
+Theorem C16_new_key_bytes : forall b,
+  List.length b = 32%nat -> new key_id (VBytes b) = ROk (key_id, le_value b).
+Proof. exact new_key_bytes. Qed.
+Print Assumptions C16_new_key_bytes.
+
+(** [incompatible id v]: an integer (or an integer register's value) for the 32-byte register,
+    the key register's value or any bytes for an integer register, bytes of another length than
+    32 for the key, and whatever is neither a number nor bytes *)
+Theorem C16_new_incompatible_refused : forall id v, incompatible id v -> new id v = RErr.
+Proof. exact new_incompatible. Qed.
+Print Assumptions C16_new_incompatible_refused.
+
 (** * Examples: the hypotheses above are satisfiable by non-trivial values *)
 
 Open Scope string_scope.
@@ -724,3 +785,18 @@ Example C16_ex_too_wide :
   yaml_scalar false "~" = Some YOther /\ yaml_scalar false "" = Some YOther /\ yaml_scalar false "True" = Some YOther /\
   orb (in_words "null" null_words) (in_words "null" bool_words) = true.
 Proof. exact ex_too_wide. Qed.
+
+(** section 21: a value copied from TXT.HEAP.BASE into TXT.ERRORCODE is a TXT.ERRORCODE register
+    (a collection holding the unconverted value would not answer Find); key and integer
+    registers do not mix; a wider value is cut (not judged by the oracle) *)
+Example C16_ex_new_values :
+  new "TXT.ERRORCODE" (VReg ("TXT.HEAP.BASE", 0x80000007%N)) = ROk ("TXT.ERRORCODE", 0x80000007%N) /\
+  new "TXT.ESTS" (VReg (key_id, 5%N)) = RErr /\ new key_id (VReg ("TXT.ESTS", 5%N)) = RErr /\
+  new key_id (VReg (key_id, 2 ^ 255 + 1)%N) = ROk (key_id, 2 ^ 255 + 1)%N /\
+  new "TXT.ESTS" (VReg ("TXT.HEAP.BASE", 0x1ff%N)) = ROk ("TXT.ESTS", 0xff%N) /\
+  new "ACM_POLICY_STATUS" (VReg ("TXT.ESTS", 0xff%N)) = ROk ("ACM_POLICY_STATUS", 0xff%N) /\
+  new "TXT.ESTS" (VBytes [1%N]) = RErr /\ new key_id (VUint 64 7) = RErr /\
+  find "TXT.ERRORCODE" [("TXT.HEAP.BASE", 0x80000007%N)] = None /\
+  valid ("TXT.HEAP.BASE", 0x80000007%N) /\ is_key "TXT.ERRORCODE" = is_key "TXT.HEAP.BASE" /\
+  incompatible "TXT.ESTS" (VReg (key_id, 5%N)) /\ incompatible key_id (VBytes [1; 2]%N).
+Proof. exact ex_new_values. Qed.
